@@ -64,7 +64,7 @@ def gen_cases(sd, tr):
     # the vectorised branch of the general loop nest and the gemm re-routings at extents that are multiples of every vector width
     # (the last index of the second operand is the contiguous, vectorised one), float and double
     for (I, J) in [((1, 0), (1, 2)), ((0, 1), (2, 1, 3)), ((0, 1), (1, 2)), ((0,), (0, 1)), ((0, 1, 2), (2, 3)), ((0, 1), (2, 0, 3))]:
-        for last in (4, 8, 16):
+        for last in (4, 6, 8, 10, 16):
             for ty in ('float', 'double'):
                 labs = sorted(set(I + J)); ext = {l: g.choice([2, 3]) for l in labs}; ext[J[-1]] = last
                 cases.append({'k': 'E2', 'ty': ty, 'I': I, 'J': J, 'da': tuple(ext[l] for l in I), 'db': tuple(ext[l] for l in J), 'sa': g.next() % 10000, 'sb': g.next() % 10000})
